@@ -549,9 +549,10 @@ class Optimizer(Logger, Citable):
             return np.nan
 
         res = (mydata.ravel() - final_model.ravel()) / datastd.ravel()
+        if np.all(np.isnan(res)):
+            # Nothing to compare; nansum would report this as a perfect fit
+            return np.nan
         res = np.nansum(res*res)
-        if res == 0:
-            res = np.nan
 
         return res
 
